@@ -34,13 +34,13 @@ package lexer
 //@     && (f == lexLeftBrace ==> l.start == l.pos && hasPrefixAt(l.input, l.pos, "{"))
 //@     && (f == lexRightBrace ==> l.start == l.pos && hasPrefixAt(l.input, l.pos, "}"))
 //@     && (f == lexTaskBody ==> l.start == l.pos)
-//@     && (f == lexTaskCommands ==> l.start < l.pos)
+//@     && (f == lexTaskCommands ==> l.start < l.pos && isLetter(runeAt(l.input, l.start)) && noByte(l.input, l.start, l.pos, 10))
 //@     && (f == lexTaskName ==> l.start == l.pos)
-//@     && (f == lexIdent ==> l.start < l.pos || isIdentRune(runeAt(l.input, l.pos)))
+//@     && (f == lexIdent ==> (l.start < l.pos || isIdentRune(runeAt(l.input, l.pos))) && identRun(l.input, l.start, l.pos))
 //@     && (f == lexArgs ==> l.start == l.pos)
 //@     && (f == lexComma ==> l.start == l.pos && hasPrefixAt(l.input, l.pos, ","))
 //@     && (f == lexDeclare ==> l.start == l.pos && hasPrefixAt(l.input, l.pos, ":="))
-//@     && (f == lexString ==> l.start < l.pos)
+//@     && (f == lexString ==> l.pos == l.start + 1 && l.input[l.start] == 34)
 
 // Rank used for the transitions that do not advance l.start.
 //@ pred rank(f lexFn) := (f == lexComment ? 3 : (f == lexStart ? 2 : (f == lexTaskBody ? 2 : (f == lexTaskName ? 1 : (f == lexArgs ? 1 : (f == lexTaskCommands ? 1 : 0))))))
@@ -96,6 +96,13 @@ package lexer
 //@ requires t != token.ERROR
 //@ requires t == token.EOF ==> l.start == len(l.input)
 //@ requires expOK(l.exp, t)
+// token shapes: what the text of each kind of token looks like (checked at every call of emit)
+//@ requires [token-shape,ident] t == token.IDENT ==> identRun(l.input, l.start, l.pos) && !isIdentRune(runeAt(l.input, l.pos))
+//@ requires [token-shape,one-line] t == token.COMMENT || t == token.COMMAND ==> noByte(l.input, l.start, l.pos, 10)
+//@ requires [token-shape,string] t == token.STRING ==> l.pos - l.start >= 2 && l.input[l.start] == 34 && l.input[l.pos - 1] == 34 && noByte(l.input, l.start + 1, l.pos - 1, 34)
+//@ requires [token-shape,command] t == token.COMMAND ==> l.start < l.pos && l.input[l.pos - 1] != 13 && !isSpace(runeAt(l.input, l.start))
+//@ requires [token-shape,punctuation] (t == token.HASH ==> l.pos == l.start + 1 && hasPrefixAt(l.input, l.start, "#")) && (t == token.TASK ==> l.pos == l.start + 4 && hasPrefixAt(l.input, l.start, "task")) && (t == token.LPAREN ==> l.pos == l.start + 1 && hasPrefixAt(l.input, l.start, "(")) && (t == token.RPAREN ==> l.pos == l.start + 1 && hasPrefixAt(l.input, l.start, ")"))
+//@ requires [token-shape,punctuation] (t == token.LBRACE ==> l.pos == l.start + 1 && hasPrefixAt(l.input, l.start, "{")) && (t == token.RBRACE ==> l.pos == l.start + 1 && hasPrefixAt(l.input, l.start, "}")) && (t == token.COMMA ==> l.pos == l.start + 1 && hasPrefixAt(l.input, l.start, ",")) && (t == token.DECLARE ==> l.pos == l.start + 2 && hasPrefixAt(l.input, l.start, ":=")) && (t == token.OUTPUT ==> l.pos == l.start + 2 && hasPrefixAt(l.input, l.start, "->"))
 //@ modifies l.start, l.startLine, l.tokEnd, l.done, l.exp
 //@ ensures LInv(l) && l.start == l.pos && l.tokEnd == l.pos && l.start >= old(l.start)
 //@ ensures l.exp == expNext(old(l.exp), t)
@@ -158,6 +165,7 @@ package lexer
 //@ func lexComment
 //@ implements lexer.lexFn
 //@ loop 0: invariant LInv(l) && l.done == old(l.done) && l.exp == old(l.exp) && l.start == old(l.start) && l.tokEnd == old(l.tokEnd)
+//@ loop 0: invariant [token-shape] noByte(l.input, l.start, l.pos, 10)
 //@ loop 0: decreases len(l.input) - l.pos
 
 //@ func lexTaskKeyword
@@ -202,6 +210,7 @@ package lexer
 //@ func lexTaskCommands
 //@ implements lexer.lexFn
 //@ loop 0: invariant LInv(l) && l.start >= old(l.start) && (old(l.done) ==> l.done) && l.exp == 3
+//@ loop 0: invariant [token-shape] noByte(l.input, l.start, l.pos, 10) && !isSpace(runeAt(l.input, l.start))
 //@ loop 0: decreases (l.done ? 0 : 1), len(l.input) - l.pos
 //@ at call dropCarriageReturns#0: ghost crEnd = l.pos
 //@ at call skipWhitespace#0: use skipWS_blanks(l.input, l.pos, crEnd - l.pos)
@@ -213,12 +222,14 @@ package lexer
 //@ func lexTaskName
 //@ implements lexer.lexFn
 //@ loop 0: invariant LInv(l) && l.done == old(l.done) && l.exp == old(l.exp) && l.start == old(l.start) && l.tokEnd == old(l.tokEnd)
+//@ loop 0: invariant [token-shape] identRun(l.input, l.start, l.pos)
 //@ loop 0: decreases len(l.input) - l.pos
 
 //@ func lexIdent
 //@ implements lexer.lexFn
 //@ loop 0: invariant LInv(l) && l.done == old(l.done) && l.exp == old(l.exp) && l.start == old(l.start) && l.tokEnd == old(l.tokEnd)
 //@ loop 0: invariant l.start < l.pos || isIdentRune(runeAt(l.input, l.pos))
+//@ loop 0: invariant [token-shape] identRun(l.input, l.start, l.pos)
 //@ loop 0: decreases len(l.input) - l.pos
 
 //@ func lexArgs
@@ -236,6 +247,7 @@ package lexer
 //@ func lexString
 //@ implements lexer.lexFn
 //@ loop 0: invariant LInv(l) && l.done == old(l.done) && l.exp == old(l.exp) && l.start == old(l.start) && l.tokEnd == old(l.tokEnd) && l.start < l.pos
+//@ loop 0: invariant [token-shape] l.input[l.start] == 34 && noByte(l.input, l.start + 1, l.pos, 34)
 //@ loop 0: decreases len(l.input) - l.pos
 
 // errmsg of a boxed syntaxError is what (syntaxError).Error returns (dynamic dispatch, trusted),
